@@ -70,6 +70,7 @@ func registerSyncIntrinsics(e *Engine) {
 		p := ptrArg(args[0])
 		c := th.run.cond(p)
 		L := condL(fr, p)
+		th.point("Cond.Wait")
 		w := &condWaiter{th: th}
 		c.waiters = append(c.waiters, w)
 		callMethod(fr, L, "Unlock")
